@@ -401,12 +401,21 @@ def epub_encryption_xml(n_data: int, ns=XMLENC, depth=0, local="EncryptedData", 
 
 
 # ----------------------------------------------------------------------------- PDF
-def pdf_plain(texts) -> bytes:
+def _set_doc_id(w, doc_id):
+    """permanent file identifier (first element of the trailer /ID, PDF 32000 §14.4): tools that encrypt / re-save a
+    document keep it, so all variants of one original share it"""
+    if doc_id is not None:
+        from pypdf.generic import ArrayObject, ByteStringObject
+        w._ID = ArrayObject([ByteStringObject(doc_id), ByteStringObject(doc_id)])
+
+
+def pdf_plain(texts, doc_id: bytes | None = None) -> bytes:
     """one page per text, Helvetica, written with pypdf (no encryption)"""
     from pypdf import PdfWriter
     from pypdf.generic import DecodedStreamObject, DictionaryObject, NameObject
 
     w = PdfWriter()
+    _set_doc_id(w, doc_id)
     for t in texts:
         page = w.add_blank_page(width=300, height=200)
         font = DictionaryObject({NameObject("/Type"): NameObject("/Font"), NameObject("/Subtype"): NameObject("/Type1"),
@@ -421,11 +430,13 @@ def pdf_plain(texts) -> bytes:
     return bio.getvalue()
 
 
-def pdf_encrypt(plain: bytes, user_pw: str, owner_pw: str, algorithm: str) -> bytes:
+def pdf_encrypt(plain: bytes, user_pw: str, owner_pw, algorithm: str, doc_id: bytes | None = None) -> bytes:
+    """owner_pw None: pypdf uses the user password as owner password (what `PdfWriter.encrypt(user)` does)"""
     from pypdf import PdfReader, PdfWriter
 
     r = PdfReader(io.BytesIO(plain))
     w = PdfWriter()
+    _set_doc_id(w, doc_id)
     for p in r.pages:
         w.add_page(p)
     w.encrypt(user_password=user_pw, owner_password=owner_pw, algorithm=algorithm)
